@@ -123,6 +123,7 @@ class SSHClientListener(SSHListener):
         self._errors = errors
         self._window = window
         self._max_pktsize = max_pktsize
+        self._closing = False
         self._close_event = asyncio.Event()
 
     async def _close(self) -> None:
@@ -136,7 +137,9 @@ class SSHClientListener(SSHListener):
 
         super().close()
 
-        if self._conn:
+        # Only ask the server to cancel the forwarding once
+        if self._conn and not self._closing:
+            self._closing = True
             self._conn.create_task(self._close())
 
     async def wait_closed(self) -> None:
